@@ -191,6 +191,9 @@ pub fn gen_sections(rng: &mut Rng, file_len_hint: u32, first_prd: u32) -> Vec<Se
 			10 => s.va = rng.below(0x800) as u32,                         // section inside the header range
 			11 => s.prd = rng.below(0x100) as u32,                        // raw data inside the headers
 			12 => s.va += rng.range(1, 7) as u32,                         // unaligned VA
+			13 => s.prd = 0,                                              // null raw pointer with raw size left over
+			14 => { s.prd = 0; s.srd = 0; },                              // .bss style: nothing stored
+			15 => s.va = 0,                                               // null virtual address
 			_ => {},
 		}
 		secs.push(s.clone());
